@@ -27,8 +27,42 @@ def make_jobs(prop, r, n, quick):
             ops.append({"op": "Prevent", "f": r.randint(1, nfn), "a": r.randint(0, 2), "c": r.choice(progs.CTXS),
                         "via": r.choice(["root", "nested"])})      # nested: the prevented call is made from inside a memento function
         cfg = dict(BACKENDS[i % len(BACKENDS)])
+        if cfg.get("backend") == "fs" and cfg.get("budget"):
+            # "Reopen": a new backend object on the same store (another worker / a later process): its cache is cold, so calls
+            # memoized before it are on disk only, calls made after it are cached - no event, nothing the monitor needs to know
+            if prop == "C15":
+                ops = ops[: len(ops) // 2] + mixed_state_batch(r, nfn) + ops[len(ops) // 2:] + mixed_state_batch(r, nfn)
+            else:
+                for _ in range(r.randint(0, 2)):
+                    ops.insert(r.randint(0, len(ops)), {"op": "Reopen"})
         jobs.append({"prog": p, "cfg": cfg, "ops": ops, "amax": 2})
     return jobs
+
+
+def mixed_state_batch(r, nfn):
+    """Directed: one batch whose elements are in different states for THIS backend object - memoized on disk by an earlier object
+    and not cached here, cached here, not memoized at all - in every order, with duplicates"""
+    f = r.randint(1, nfn)
+    c = "none"
+    if r.random() < 0.7:          # one element in each state
+        sts = ["disk", "cached", "new"]
+        r.shuffle(sts)
+        state = dict(zip((0, 1, 2), sts))
+    else:
+        state = {a: r.choice(["disk", "cached", "new", "disk+cached"]) for a in (0, 1, 2)}
+    ops = [{"op": "Forget", "f": f, "a": a, "c": c} for a in (0, 1, 2) if state[a] in ("new", "cached")]
+    ops += [{"op": "Call", "f": f, "a": a, "c": c, "mod": "normal"} for a in (0, 1, 2) if state[a].startswith("disk")]
+    ops.append({"op": "Reopen"})
+    ops += [{"op": "Call", "f": f, "a": a, "c": c, "mod": "normal"} for a in (0, 1, 2) if state[a].endswith("cached")]
+    args = [0, 1, 2]
+    r.shuffle(args)
+    if r.random() < 0.4:
+        args.insert(r.randint(0, 3), r.choice(args))
+    ops.append({"op": "Batch", "f": f, "args": args, "c": c, "rf": r.random() < 0.5, "how": r.choice(["call_batch", "call_batch", "map"])})
+    if ops[-1]["how"] == "map":
+        ops[-1]["rf"] = True
+    ops.append({"op": "Batch", "f": f, "args": args, "c": c, "rf": ops[-1]["rf"], "how": "call_batch"})
+    return ops
 
 
 def mech_jobs(r, n):
